@@ -356,8 +356,8 @@ type c08Observation struct {
 	Panic   string `json:"-"`
 	PanicB  []byte // Panic for the trip through JSON (a panic text need not be valid UTF-8)
 	Hooks   int64  // calls of the observed logger's own hook
-	Foreign int64 // writes to sinks of the history while the call ran (seq only)
-	FHooks  int64 // calls of hooks of the history while the call ran (seq only)
+	Foreign int64  // writes to sinks of the history while the call ran (seq only)
+	FHooks  int64  // calls of hooks of the history while the call ran (seq only)
 }
 
 func (o *c08Observation) text() string {
